@@ -1,4 +1,4 @@
-//@unit tier=quick
+//@unit tier=quick isolation=yes
 //@include prelude/uses.rs
 use vstd::std_specs::iter::IteratorSpec;
 verus! {
